@@ -91,6 +91,15 @@ def run(ctx):
                 ctx.fail('C09/grid-forwarding', 'hypotest not called once per scan point with the forwarded options', inp, calls[:3], kw)
             if len(results) != len(pts) or any(float(r[0]) != obs(m) for r, m in zip(results, pts)):
                 ctx.fail('C09/returned-results', 'returned per-point results are not the hypotest results at the scan points', inp)
+            # ---- the per-point results are reported next to the scan points they belong to, in whatever order the caller listed the points
+            # (a coarse grid with refinement points appended); only this clause is checked on such a list, not the limits
+            if i % 4 == 0:
+                shuffled_pts = list(pts); rng.shuffle(shuffled_pts)
+                calls.clear()
+                _o, _e, (sc2, res2) = ul.upper_limit(data, model, scan=np.asarray(shuffled_pts), level=level, return_results=True)
+                ctx.count()
+                if len(sc2) != len(res2) or any(float(r[0]) != obs(float(m_)) or [float(x) for x in r[1]] != band(float(m_)) for r, m_ in zip(res2, sc2)):
+                    ctx.fail('C09/returned-results', 'the per-point results are not the hypothesis-test results at the reported scan points (scan points listed out of order)', dict(inp, scan=shuffled_pts))
             # ---- automatic mode
             lattice_on[0] = False
             calls.clear()
